@@ -79,7 +79,8 @@ Cfgs ==
            C("bridge", X2, {"eofA", "eofB", "ctx"}, "-", 1, 1, "asis"),
            C("bridge", X2, {"eofA", "eofB", "ctx"}, "-", 1, 1, "report") }
     [] Suite = "gen" ->           \* behaviour generation, quick tier
-         { C("latch", {"c1", "c2", "c3"}, {"add", "op", "io"}, "-", 0, 0, "fixed"),
+         { C("latch", {"c1", "c2"}, {"add", "op", "io"}, "-", 0, 0, "fixed"),
+           C("latch", {"c1", "c2", "c3"}, {"add"}, "-", 0, 0, "fixed"),
            C("tunnel", X2, {"copy", "peer"}, "Connected", 0, 0, "fixed"),
            C("tunnel", X3, {}, "Connecting", 0, 0, "fixed"),
            C("tunnel", X2, {"copy"}, "Connected", 0, 0, "asis"),
@@ -87,10 +88,11 @@ Cfgs ==
            C("bridge", {"x1"}, {"eofA"}, "-", 1, 0, "fixed"),
            C("bridge", {"x1"}, {"eofA"}, "-", 1, 0, "asis") }
     [] Suite = "genbig" ->        \* behaviour generation, thorough tier (in addition to "gen")
-         { C("tunnel", X2, {"idle", "ctx"}, "Connected", 0, 0, "fixed"),
+         { C("latch", {"c1", "c2", "c3"}, {"add", "op", "io"}, "-", 0, 0, "fixed"),
+           C("tunnel", X2, {"idle", "ctx"}, "Connected", 0, 0, "fixed"),
            C("tunnel", X3, {}, "Connected", 0, 0, "asis"),
-           C("tunnel", X2, {"peer", "ctx"}, "Connected", 0, 0, "asis"),
-           C("bridge", X2, {"eofB", "ctx"}, "-", 1, 1, "fixed"),
+           C("tunnel", X2, {"peer"}, "Connected", 0, 0, "asis"),
+           C("bridge", {"x1"}, {"eofB", "ctx"}, "-", 1, 1, "fixed"),
            C("bridge", {"x1"}, {"eofB", "ctx"}, "-", 1, 1, "asis") }
     [] Suite = "show" ->          \* the code as written, for the *_show cfg: TLC exhibits the flaws
          { C("tunnel", X2, {}, "Connected", 0, 0, "asis"),
